@@ -8,13 +8,14 @@
    energised.
 
    [run_ops cfg (init cfg) ops] is the state of the model (Model.v) after ANY list of operations
-   Enable/Disable/SwFlip/SwRelease/BallSearch/Ev/SwOn/SwOff/Advance; [wf cfg] says that the (switch, coil) keys of
+   Enable/Disable/SwFlip/SwRelease/BallSearch/Ev/SwOn/SwOff/Advance/AdvanceMs; [drun cfg tr] the same for a lifecycle
+   trace (Life.v: game events of the automaton interleaved with such operations); [wf cfg] says that the (switch, coil) keys of
    all rules of all configured devices are pairwise distinct (otherwise virtual.py's overwrite assertion is the
    specified outcome).  The default event wiring ([en_events]/[dis_events] when a device does not override it) is
    gen/Wiring.v, regenerated from mpf/config_spec.yaml on every run. *)
 From Common Require Import Prelude.
 From C10.gen Require Import Wiring.
-From C10 Require Import Model Lemmas.
+From C10 Require Import Model Lemmas AuxLemmas Life LifeLemmas HandoverLemmas.
 Open Scope Z_scope.
 
 (* The table is the disjoint union of the rules of the enabled devices: an entry is present iff it is an entry of
@@ -64,23 +65,119 @@ Theorem no_rules_outside_ball : forall cfg ops1 e ops2 i,
 Proof. exact no_rules_outside_ball_l. Qed.
 Print Assumptions no_rules_outside_ball.
 
-(* "no flipper coil is left energised": FULL statement wanted:
-     forall cfg ops1 e ops2 i (as above, i a flipper), in the final state cget (main coil) <> 1 /\ cget (hold coil) <> 1.
-   Proved here (_partial): the disable step itself.  If the flipper's coils are energised only by what the model
-   can energise them with (a software flip, or a software EOS repulse while the button is active) then after
-   Flipper.disable neither coil is energised.  Missing: that this hypothesis is an invariant of all histories
-   (needs the coils of different devices to be distinct); it is validated by the correspondence runs and checked
-   directly on the implementation by the oracle (sig flipper-coil-energised-while-disabled) on every run. *)
-Theorem disable_releases_coils_partial : forall cfg s i,
-  is_flip (cf cfg i) = true -> enabled (dev s i) = true ->
-  (cget (d_coil (cf cfg i)) (coils s) = 1 ->
-     flipped (dev s i) = true \/ exists l, mgr (dev s i) = Some (true, l)) ->
-  (forall h, d_hold (cf cfg i) = Some h -> cget h (coils s) = 1 -> flipped (dev s i) = true) ->
-  let s' := dev_disable cfg s i in
-  cget (d_coil (cf cfg i)) (coils s') <> 1 /\
-  (forall h, d_hold (cf cfg i) = Some h -> cget h (coils s') <> 1).
-Proof. exact disable_releases_coils_l. Qed.
-Print Assumptions disable_releases_coils_partial.
+(* "no flipper coil is left energised" / "cabinet buttons cannot fire coils", FULL statement: in EVERY reachable state a
+   flipper that is not enabled has neither its main nor its hold coil energised (VirtualDriver.state = enabled), for
+   every interleaving of button / EOS switch changes, debounce timers, software flips, ball search, timeouts and
+   enable / disable of any device.  [wfc]: the main and hold coils of all flippers are pairwise different drivers. *)
+Theorem flipper_coil_only_while_enabled : forall cfg ops i, wf cfg -> wfc cfg ->
+  (i < length cfg)%nat -> is_flip (cf cfg i) = true ->
+  let s := run_ops cfg (init cfg) ops in
+  enabled (dev s i) = false ->
+  cget (d_coil (cf cfg i)) (coils s) <> 1 /\
+  (forall h, d_hold (cf cfg i) = Some h -> cget h (coils s) <> 1).
+Proof. exact flipper_coil_only_while_enabled_l. Qed.
+Print Assumptions flipper_coil_only_while_enabled.
+
+(* ... in particular after any history followed by Disable i (was disable_releases_coils_partial, which covered the
+   disable step only under an unproved hypothesis on the state before it) *)
+Theorem disable_releases_coils : forall cfg ops i, wf cfg -> wfc cfg ->
+  (i < length cfg)%nat -> is_flip (cf cfg i) = true ->
+  let s := run_ops cfg (init cfg) (ops ++ [Disable i]) in
+  cget (d_coil (cf cfg i)) (coils s) <> 1 /\
+  (forall h, d_hold (cf cfg i) = Some h -> cget h (coils s) <> 1).
+Proof. exact disable_releases_coils_full_l. Qed.
+Print Assumptions disable_releases_coils.
+
+(* aux_handlers_balanced: after every history the PSU-notification switch handlers are exactly the first key of every
+   rule of every enabled device, each registered once; a software EOS repulse manager exists for exactly the enabled
+   flippers configured with repulse_on_eos_open (created on enable, removed on disable, never for a disabled device);
+   a pending timed "EOS closed long enough" handler always belongs to a live manager. *)
+Theorem aux_handlers_balanced : forall cfg ops, wf cfg ->
+  let s := run_ops cfg (init cfg) ops in
+  (forall k, In k (psu s) <->
+             exists i, (i < length cfg)%nat /\ enabled (dev s i) = true /\ In k (psu_keys (rules_of (cf cfg i)))) /\
+  NoDup (psu s) /\
+  (forall i, mgr (dev s i) <> None <-> has_mgr (cf cfg i) = true /\ enabled (dev s i) = true) /\
+  (forall i, has_tmr (TEosLong i) (timers s) = true -> mgr (dev s i) <> None).
+Proof. exact aux_handlers_balanced_l. Qed.
+Print Assumptions aux_handlers_balanced.
+
+(* Devices that SHARE keys (a normal and a weak flipper on the same button and coil(s), swapped by one event) are
+   outside [wf].  [swap_safe]: devices that share a key are flippers, and every event in the enable list of one of them
+   is in the disable list of the other and not in its enable list; [op_ok]: a direct enable() (not through an event)
+   only for a device that shares nothing.  Then for ALL histories the table is still exactly the rules of the enabled
+   devices, no rule is ever written over another one (err = false: virtual.py's assertion never fires; on an
+   overwriting platform no rule of an enabled flipper is wiped by the clear of the other), and two devices that
+   share a key are never enabled together.  This holds because [acts_of (Ev e)] runs the event_disable handlers
+   (priority 10) of ALL devices before the event_enable handlers (priority 1) - the order the correspondence run checks
+   against the real EventManager on the `handover` histories. *)
+Theorem handover_rules_equal_enabled_devices : forall cfg ops,
+  (forall i, NoDup (keys_of (cf cfg i))) -> swap_safe cfg -> Forall (op_ok cfg) ops ->
+  let s := run_ops cfg (init cfg) ops in
+  (forall kv, In kv (tbl s) <->
+              exists i, (i < length cfg)%nat /\ enabled (dev s i) = true /\ In kv (entries_of (cf cfg i))) /\
+  NoDup (map fst (tbl s)) /\ err s = false /\
+  (forall i j, i <> j -> (i < length cfg)%nat -> (j < length cfg)%nat ->
+               enabled (dev s i) = true -> enabled (dev s j) = true -> disj cfg i j).
+Proof. exact handover_rules_equal_enabled_devices_l. Qed.
+Print Assumptions handover_rules_equal_enabled_devices.
+
+(* Platforms that overwrite silently (FAST/OPP-like; the harness runs a share of the histories with virtual.py's
+   assertion switched off): the table written by a sequence of set_*_rule calls does not depend on the assertion
+   flag, so [tbl] above IS the table of an overwriting platform and rules_equal_enabled_devices holds there verbatim
+   (its [err s = false] conjunct then says that no rule was ever written over another one). *)
+Theorem rule_table_independent_of_assertion : forall es t e1 e2,
+  fst (install es (t, e1)) = fst (install es (t, e2)).
+Proof. exact install_tbl_indep_l. Qed.
+Print Assumptions rule_table_independent_of_assertion.
+
+(* ------------------------------------------------------------------------------------------ *)
+(* the game lifecycle (Life.v): [lrun l0 tr = Some ls] says that the lifecycle events of the trace are a run of the
+   automaton of game.py / tilt.py / service_controller.py (game start, balls, tilt, slam tilt, service mode stopping
+   the game WITHOUT ball_will_end, game end); [env_ok] allows ANY other operation on the devices between them (while a
+   ball is in play: everything; outside: everything that does not itself ask device i to enable).  A device is
+   [ball_scoped] if ball_will_end and service_mode_entered disable it and no lifecycle event other than ball_started
+   enables it: the default wiring of config_spec.yaml is (next theorem), custom enable_events / disable_events may be.
+   Then whenever no ball is in play - before the first ball, between balls, after the game, in service mode, after a
+   tilt ended the ball - device i is off, none of its rules is installed, no timeout re-enable is pending, no EOS
+   manager is left, and (flipper) none of its coils is energised. *)
+Theorem lifecycle_no_rules_outside_ball : forall cfg tr i ls,
+  wf cfg -> (i < length cfg)%nat -> ball_scoped (cf cfg i) ->
+  lrun l0 tr = Some ls -> env_ok cfg i l0 tr ->
+  in_ball ls = false ->
+  let s := drun cfg tr in
+  enabled (dev s i) = false /\
+  (forall k, In k (keys_of (cf cfg i)) -> has_key k (tbl s) = false) /\
+  has_tmr (TReenable i) (timers s) = false /\
+  mgr (dev s i) = None /\
+  (wfc cfg -> is_flip (cf cfg i) = true ->
+   cget (d_coil (cf cfg i)) (coils s) <> 1 /\ (forall h, d_hold (cf cfg i) = Some h -> cget h (coils s) <> 1)).
+Proof. exact lifecycle_no_rules_outside_ball_l. Qed.
+Print Assumptions lifecycle_no_rules_outside_ball.
+
+(* the defaults translated from config_spec.yaml are ball scoped (breaks when a default changes) *)
+Theorem default_wiring_ball_scoped : forall c, d_en_ev c = None -> d_dis_ev c = None -> ball_scoped c.
+Proof. exact default_ball_scoped_l. Qed.
+Print Assumptions default_wiring_ball_scoped.
+
+(* "the machine tilts": a tilt accepted while Game._run_ball is running a ball (ball_will_start .. ball_will_end)
+   leaves the game tilted with a ball in play only while the end-of-ball request it made is still pending, i.e.
+   ball_will_end is the next game event; afterwards lifecycle_no_rules_outside_ball applies. *)
+Theorem tilt_in_ball_ends_ball : forall tr s,
+  lrun l0 tr = Some s -> tilts_in_ball l0 tr ->
+  l_tilted s = true -> in_ball s = true -> l_endreq s = true.
+Proof. exact tilt_in_ball_ends_ball_l. Qed.
+Print Assumptions tilt_in_ball_ends_ball.
+
+(* FULL statement wanted: the same without [tilts_in_ball].  It is false of the faithful automaton (known finding
+   tilt-accepted-between-balls-sticks): a tilt accepted while ball_ending is held sets game.tilted, its end-of-ball
+   request is wiped by the next Game._run_ball, and the next ball is played tilted with all rules installed.
+   Replayed on the implementation by corpus/C10/game.1.json. *)
+Theorem tilt_between_balls_sticks_refuted :
+  exists tr s, lrun l0 tr = Some s /\ l_tilted s = true /\ in_ball s = true /\ l_endreq s = false /\
+               enabled (dev (drun ex_cfg tr) 0%nat) = true /\ tbl (drun ex_cfg tr) <> [].
+Proof. exact tilt_between_balls_sticks_l. Qed.
+Print Assumptions tilt_between_balls_sticks_refuted.
 
 (* ------------------------------------------------------------------------------------------ *)
 (* satisfiability of the hypotheses on a non-trivial machine: a single-wound flipper with EOS and software
@@ -102,10 +199,47 @@ Example ex_history :
 Proof. exact ex_history_l. Qed.
 Print Assumptions ex_history.
 
-(* the hypotheses of disable_releases_coils_partial hold in a state where the coil IS energised by a repulse *)
+(* a state in which a repulse HAS energised the coil of the enabled flipper 0 (so the coil theorems are not vacuous) *)
 Example ex_coil_held :
   let s := run_ops ex_cfg (init ex_cfg) ex_ops1 in
   is_flip (cf ex_cfg 0) = true /\ enabled (dev s 0%nat) = true /\ cget 1 (coils s) = 1 /\
   flipped (dev s 0%nat) = false /\ mgr (dev s 0%nat) = Some (true, false).
 Proof. exact ex_coil_held_l. Qed.
 Print Assumptions ex_coil_held.
+
+Example ex_wfc : wfc ex_cfg.
+Proof. exact ex_wfc_l. Qed.
+Print Assumptions ex_wfc.
+
+(* PSU handlers and an EOS manager exist in that state; ball_will_end removes them, Disable 0 releases the coil *)
+Example ex_aux :
+  let s := run_ops ex_cfg (init ex_cfg) ex_ops1 in
+  length (psu s) = 5%nat /\ mgr (dev s 0%nat) = Some (true, false) /\ cget 1 (coils s) = 1 /\
+  psu (run_ops ex_cfg (init ex_cfg) (ex_ops1 ++ [Ev ev_ball_will_end])) = [] /\
+  cget 1 (coils (run_ops ex_cfg (init ex_cfg) (ex_ops1 ++ [Disable 0%nat]))) = 0.
+Proof. exact ex_aux_l. Qed.
+Print Assumptions ex_aux.
+
+(* a lifecycle trace (two balls, a tilt in the first, service mode in the second, device traffic in between) that
+   satisfies every hypothesis of lifecycle_no_rules_outside_ball and tilt_in_ball_ends_ball and is non-trivial *)
+Example ex_trace_ok :
+  (exists ls, lrun l0 ex_trace = Some ls /\ in_ball ls = false) /\
+  env_ok ex_cfg 0 l0 ex_trace /\ tilts_in_ball l0 ex_trace /\ ball_scoped (cf ex_cfg 0) /\
+  length (tbl (drun ex_cfg (firstn 17 ex_trace))) = 4%nat /\
+  cget 1 (coils (drun ex_cfg (firstn 17 ex_trace))) = 1 /\
+  tbl (drun ex_cfg ex_trace) = [] /\ cget 1 (coils (drun ex_cfg ex_trace)) = 0.
+Proof. exact ex_trace_ok_l. Qed.
+Print Assumptions ex_trace_ok.
+
+(* a machine with a normal and a weak flipper on the same button and coils (NOT wf) next to an autofire coil satisfies
+   the hypotheses of handover_rules_equal_enabled_devices, with a history that swaps them three times *)
+Example ex_handover_swap_safe : (forall i, NoDup (keys_of (cf ho_cfg i))) /\ swap_safe ho_cfg.
+Proof. exact (conj ho_nodup ho_swap_safe_l). Qed.
+Print Assumptions ex_handover_swap_safe.
+
+Example ex_handover :
+  Forall (op_ok ho_cfg) ho_ops /\ ~ wf ho_cfg /\
+  let s := run_ops ho_cfg (init ho_cfg) ho_ops in
+  map (fun d => enabled d) (devs s) = [false; true; true] /\ length (tbl s) = 3%nat /\ err s = false.
+Proof. exact ho_example_l. Qed.
+Print Assumptions ex_handover.
